@@ -191,6 +191,32 @@ fn sequential_refs(n: usize) {
     }
 }
 
+/// Single thread: the creation changes several times, also back to a value used before (an old-style
+/// EPMD cycles 1, 2, 3, 1, ...), with allocations under each; every identifier carries the creation in
+/// force and no (id, serial, creation) is handed out twice. `seed` picks the creations and run lengths.
+fn sequential_creations(seed: u64, rounds: usize) {
+    let alloc = PidAllocator::new(Atom::new("n@h"), 1);
+    let mut seen: HashSet<(u32, u32, u32)> = HashSet::new();
+    let mut x = seed | 1;
+    let mut next = || {
+        x ^= x << 13;
+        x ^= x >> 7;
+        x ^= x << 17;
+        x
+    };
+    let mut creation = 1u32;
+    for round in 0..rounds {
+        let k = 1 + (next() % 40) as usize;
+        for _ in 0..k {
+            let p = alloc.allocate().expect("allocate");
+            assert_eq!(p.creation, creation, "identifier {:?} does not carry the creation in force ({})", (p.id, p.serial, p.creation), creation);
+            assert!(seen.insert((p.id, p.serial, p.creation)), "identifier <{}.{}> with creation {} is handed out twice in a sequential history in which the creation changed to another value and back (round {})", p.id, p.serial, p.creation, round);
+        }
+        creation = [1u32, 2, 3, 1, 2, 0xffff_ffff, 7][(next() % 7) as usize];
+        alloc.set_creation(creation);
+    }
+}
+
 /// Single thread, `n` allocations from `start_id`: distinctness across several wraps.
 fn sequential(start_id: u32, start_serial: u64, n: usize) {
     let alloc = PidAllocator::new(Atom::new("n@h"), 9);
@@ -265,7 +291,9 @@ fn main() {
                     let mut sc = Config::new();
                     sc.max_steps = MaxSteps::None;
                     sc.failure_persistence = FailurePersistence::None;
-                    if c.name == "sequential-refs" {
+                    if c.name == "sequential-creations" {
+                        Runner::new(DfsScheduler::new(None, false), sc).run(move || sequential_creations(c.start_serial, c.calls));
+                    } else if c.name == "sequential-refs" {
                         Runner::new(DfsScheduler::new(None, false), sc).run(move || sequential_refs(c.calls));
                     } else {
                         Runner::new(DfsScheduler::new(None, false), sc).run(move || sequential(c.start_id, c.start_serial, c.calls));
@@ -409,6 +437,26 @@ fn main() {
         }
     }
 
+    let mut seq_creation_rounds = 0usize;
+    if failure.is_none() && seq_failure.is_none() {
+        let histories = if thorough { 2000 } else { 200 };
+        for h in 0..histories {
+            let hseed = seed.wrapping_mul(0x9e37_79b9_7f4a_7c15).wrapping_add(h as u64);
+            let dir2 = dir.clone();
+            let r = std::panic::catch_unwind(move || {
+                let mut c = shuttle_config(&dir2);
+                c.max_steps = MaxSteps::None;
+                Runner::new(DfsScheduler::new(None, false), c).run(move || sequential_creations(hseed, 30));
+            });
+            if let Err(e) = r {
+                let msg = e.downcast_ref::<String>().cloned().unwrap_or_else(|| "panic".into());
+                seq_failure = Some((mk("sequential-creations", 1, 30, 0, hseed, false, false), msg));
+                break;
+            }
+            seq_creation_rounds += 30;
+        }
+    }
+
     let mut violations = 0;
     if let Some((cfg, msg, kind)) = &failure {
         let sched = newest_schedule(&dir, &known).unwrap_or_default();
@@ -451,6 +499,7 @@ fn main() {
             "executions_that_crossed_the_wrap_point": *WRAPS_SEEN.lock().unwrap(),
             "sequential_allocations_checked": seq_allocs,
             "sequential_references_checked": seq_refs,
+            "sequential_creation_changes_checked": seq_creation_rounds,
             "runs_per_hour": if wall > 0.0 { (total_iters as f64 / wall * 3600.0) as u64 } else { 0 },
             "components_real": ["edp_client::pid_allocator::PidAllocator::allocate", "edp_node::Node::make_reference", "edp_node::Node::new"],
             "components_stubbed": ["std::sync::Mutex and atomics replaced by shuttle's (scheduling points at every lock / atomic step)"],
